@@ -52,6 +52,9 @@ def step (line : String) : String :=
   | "rview2" :: rest => runRview2 (parseKV rest)
   | "rview3" :: rest => runRview3 (parseKV rest)
   | "fview3" :: rest => runFview3 (parseKV rest)
+  | "rctor2" :: rest => runRctor2 (parseKV rest)
+  | "rvsrc" :: rest => runRvsrc (parseKV rest)
+  | "fvsrc" :: rest => runFvsrc (parseKV rest)
   | "reduce" :: rest => runReduce (parseKV rest)
   | "minmax" :: rest => runMinmax (parseKV rest)
   | "pred" :: rest => runPred (parseKV rest)
